@@ -10,9 +10,10 @@
    TLC checks the closed forms (Wiener: Var x_k = sum sigma_i^2 dt_i; OU with constant sigma: Var x_k = sigma^2 (1 - prod rho_i^2);
    Cov(x_a, x_b) = Var x_a prod_{a <= i < b} rho_i) against the recursion on every reachable state. *)
 EXTENDS Rat, Json
-CONSTANTS Kind, NSteps, VaryParams
-VARIABLES k, steps, cov, prop
-vars == <<k, steps, cov, prop>>
+CONSTANTS Kind, NSteps, VaryParams,
+          Stationary      \* Ornstein-Uhlenbeck only: the initial state is itself random with the variance sigma_0^2 of the first step (steady-state start)
+VARIABLES k, steps, cov, prop, v0
+vars == <<k, steps, cov, prop, v0>>
 D == IF Kind = "iwp" THEN 2 ELSE 1
 Dts == {R(1, 2), Z(1), Z(2)}
 Sig2s == {Z(1), Z(4)}                     \* sigma in {1, 2}
@@ -25,15 +26,18 @@ Q(st) == CASE Kind = "wiener" -> <<<<RMul(st.s2, st.dt)>>>>
                 <<<<RMul(st.s2, RAdd(RDiv(d3, Z(3)), RMul(st.asp, d))), RMul(st.s2, RDiv(d2, Z(2)))>>,
                   <<RMul(st.s2, RDiv(d2, Z(2))), RMul(st.s2, d)>>>>
 Zero == [i \in 1..D |-> [j \in 1..D |-> Z(0)]]
-Init == k = 0 /\ steps = <<>> /\ cov = <<<<Zero>>>> /\ prop = <<Id(D)>>
+Init == /\ k = 0 /\ steps = <<>> /\ prop = <<Id(D)>>
+        /\ v0 \in (IF Stationary THEN Sig2s ELSE {Z(0)})
+        /\ cov = <<<<IF Stationary THEN <<<<v0>>>> ELSE Zero>>>>
 Step(st) ==
   /\ k < NSteps
+  /\ (Stationary /\ k = 0 => st.s2 = v0)
   /\ (~VaryParams /\ k > 0 => st.s2 = steps[1].s2 /\ st.asp = steps[1].asp /\ st.rho = steps[1].rho)
   /\ LET Fk == F(st)  FT == MT(Fk, D, D)  last == cov[k + 1]
          Pn == MAdd(MMul(MMul(Fk, last[k + 1], D, D, D), FT, D, D, D), Q(st), D, D) IN
        /\ cov' = Append(cov, [a \in 1..(k + 2) |-> IF a <= k + 1 THEN MMul(last[a], FT, D, D, D) ELSE Pn])
        /\ prop' = Append(prop, MMul(Fk, prop[k + 1], D, D, D))
-  /\ steps' = Append(steps, st) /\ k' = k + 1
+  /\ steps' = Append(steps, st) /\ k' = k + 1 /\ UNCHANGED v0
 Next == \/ \E dt \in Dts, s2 \in Sig2s, asp \in Asps, rho \in Rhos : Step([dt |-> dt, s2 |-> s2, asp |-> asp, rho |-> rho])
         \/ (k = NSteps /\ UNCHANGED vars)
 Spec == Init /\ [][Next]_vars
@@ -43,8 +47,10 @@ ProdRho2(a, b) == IF a > b THEN Z(1) ELSE RMul(RMul(steps[a].rho, steps[a].rho),
 RECURSIVE ProdRho(_, _)
 ProdRho(a, b) == IF a > b THEN Z(1) ELSE RMul(steps[a].rho, ProdRho(a + 1, b))
 VarX(b) == cov[b][b][1][1]
-WienerClosed == Kind = "wiener" => \A b \in 1..(k + 1) : VarX(b) = RSum([i \in 1..k |-> RMul(steps[i].s2, steps[i].dt)], 1, b - 1)
-OUClosed == (Kind = "ou" /\ ~VaryParams /\ k > 0) => \A b \in 1..(k + 1) : VarX(b) = RMul(steps[1].s2, RSub(Z(1), ProdRho2(1, b - 1)))
+WienerClosed == (Kind = "wiener" /\ ~Stationary) => \A b \in 1..(k + 1) : VarX(b) = RSum([i \in 1..k |-> RMul(steps[i].s2, steps[i].dt)], 1, b - 1)
+\* a steady-state start with constant sigma stays in the steady state
+OUStationary == (Kind = "ou" /\ Stationary /\ ~VaryParams /\ k > 0) => \A b \in 1..(k + 1) : VarX(b) = steps[1].s2
+OUClosed == (Kind = "ou" /\ ~Stationary /\ ~VaryParams /\ k > 0) => \A b \in 1..(k + 1) : VarX(b) = RMul(steps[1].s2, RSub(Z(1), ProdRho2(1, b - 1)))
 OUCross == Kind = "ou" => \A b \in 1..(k + 1) : \A a \in 1..b : cov[b][a][1][1] = RMul(VarX(a), ProdRho(a, b - 1))
 \* the velocity of the integrated Wiener process is a Wiener process; position-velocity covariance sigma^2 t^2/2 for constant parameters, no asperity
 IWPVelocity == Kind = "iwp" => \A b \in 1..(k + 1) : cov[b][b][2][2] = RSum([i \in 1..k |-> RMul(steps[i].s2, steps[i].dt)], 1, b - 1)
@@ -58,6 +64,6 @@ NonNegative == \A b \in 1..(k + 1) : \A i \in 1..D : ~RLt(cov[b][b][i][i], Z(0))
 NeverVaries == ~(k >= 2 /\ steps[1].dt # steps[2].dt /\ steps[1].s2 # steps[2].s2)
 RJ(x) == [n |-> x[1], d |-> x[2]]
 MJ(M) == [i \in 1..D |-> [j \in 1..D |-> RJ(M[i][j])]]
-Emit == k < NSteps \/ PrintT(ToJson([kind |-> Kind, steps |-> [i \in 1..k |-> [dt |-> RJ(steps[i].dt), s2 |-> RJ(steps[i].s2), asp |-> RJ(steps[i].asp), rho |-> RJ(steps[i].rho)]],
+Emit == k < NSteps \/ PrintT(ToJson([kind |-> Kind, stationary |-> Stationary, steps |-> [i \in 1..k |-> [dt |-> RJ(steps[i].dt), s2 |-> RJ(steps[i].s2), asp |-> RJ(steps[i].asp), rho |-> RJ(steps[i].rho)]],
                                        cov |-> [b \in 1..(k + 1) |-> [a \in 1..b |-> MJ(cov[b][a])]], prop |-> [b \in 1..(k + 1) |-> MJ(prop[b])]]))
 =============================================================================
